@@ -32,6 +32,7 @@ WHY = {
  'scope-returns-session-handle': 'tried: continuing Execute on an instance of the returned handle repairs the transaction bookkeeping, but callers that ignore Execute\'s return value (CreateInBatches reads subtx.Error) then lose errors - what a scope may return needs a decision first; reverted',
  'shared-child-in-partly-new-slice': 'the re-create of a partly seen slice is also what writes the foreign keys of the seen has-one/has-many elements (upsert with DoUpdates); skipping seen elements loses that write, so hooks-once needs the insert split from the link update',
  'shared-child-across-batches': 'each batch of CreateInBatches is a Create of its own with its own visit map; sharing the map across batches has to be done from package gorm, where its type is not visible (4606f7f repairs the case inside one batch)',
+ 'scope-session-open-tx': 'same root as C05 `scope-returns-session-handle` (Execute continues on the handle a scope returned; the transaction bookkeeping stays on the statement it started with); the repair tried there was reverted',
  'preparestmt-bounded-pool': 'documented trade-off in prepare() (it cannot hold the lock while waiting for a connection)',
 }
 
